@@ -32,6 +32,7 @@ type HarnessSpec struct {
 	Monitor   bool              `json:"monitor,omitempty"`
 	WallMs    int64             `json:"wall_ms,omitempty"`
 	Note      string            `json:"note,omitempty"`
+	Split     int               `json:"split,omitempty"`
 }
 
 type PropertySpec struct {
@@ -208,7 +209,7 @@ func checkMain(a []string) {
 		rec = func(i int, cur []int) {
 			if i == len(dims) {
 				reqs = append(reqs, &InstanceReq{Harness: h.H, Args: append([]int(nil), cur...), MaxSteps: h.MaxSteps,
-					MaxDepth: h.MaxDepth, TimeoutMs: h.TimeoutMs, Solver: h.Solver, Known: enabledKnown, Monitor: h.Monitor, WallLimitMs: h.WallMs})
+					MaxDepth: h.MaxDepth, TimeoutMs: h.TimeoutMs, Solver: h.Solver, Known: enabledKnown, Monitor: h.Monitor, WallLimitMs: h.WallMs, SplitAt: h.Split, SliceMs: int64(envInt("GOSYM_SLICE_MS", 3000))})
 				return
 			}
 			for _, v := range dims[i] {
@@ -229,17 +230,38 @@ func checkMain(a []string) {
 	}
 
 	nw := envInt("GOSYM_WORKERS", 16)
-	if nw > len(reqs) {
+	anySplit := false
+	for _, r := range reqs {
+		if r.SplitAt > 0 {
+			anySplit = true
+		}
+	}
+	if nw > len(reqs) && !anySplit {
 		nw = len(reqs)
 	}
 	fmt.Printf("gosym: property %s tier %s seed %d: %d instances of %d harnesses on %d workers\n", id, tier, seed, len(reqs), len(hs), nw)
 
-	jobs := make(chan *InstanceReq, len(reqs))
-	for _, r := range reqs {
-		jobs <- r
-	}
-	close(jobs)
 	var mu sync.Mutex
+	queue := append([]*InstanceReq(nil), reqs...)
+	inflight := 0
+	cond := sync.NewCond(&mu)
+	total := len(reqs)
+	nextJob := func() *InstanceReq {
+		mu.Lock()
+		defer mu.Unlock()
+		for {
+			if len(queue) > 0 {
+				r := queue[0]
+				queue = queue[1:]
+				inflight++
+				return r
+			}
+			if inflight == 0 {
+				return nil
+			}
+			cond.Wait()
+		}
+	}
 	var results []*InstanceResult
 	var startErr error
 	stop := false
@@ -256,14 +278,26 @@ func checkMain(a []string) {
 				return
 			}
 			defer w.stop()
-			for req := range jobs {
+			for {
+				req := nextJob()
+				if req == nil {
+					return
+				}
 				mu.Lock()
 				s := stop
 				mu.Unlock()
 				if s {
-					return
+					mu.Lock()
+					inflight--
+					cond.Broadcast()
+					mu.Unlock()
+					continue
 				}
+				tStart := time.Since(t0)
 				res, err := w.run(req)
+				if os.Getenv("GOSYM_TIMELINE") != "" && err == nil {
+					fmt.Fprintf(os.Stderr, "timeline %6.2f..%6.2f %s%v level=%d paths=%d pending=%d\n", tStart.Seconds(), time.Since(t0).Seconds(), req.Harness, req.Args, req.Level, res.Paths, len(res.Pending))
+				}
 				if err != nil {
 					res = &InstanceResult{Harness: req.Harness, Args: req.Args, EngineError: err.Error()}
 					w2, err2 := startWorker()
@@ -272,6 +306,22 @@ func checkMain(a []string) {
 					}
 				}
 				mu.Lock()
+				for _, p := range res.Pending {
+					sub := *req
+					sub.Level = req.Level + 1
+					if sub.Level >= 40 {
+						sub.SplitAt = 0
+					}
+					sub.Prefix = p
+					if sub.Prefix == nil {
+						sub.Prefix = []decision{}
+					}
+					queue = append(queue, &sub)
+					total++
+				}
+				res.Pending = nil
+				inflight--
+				cond.Broadcast()
 				results = append(results, res)
 				nviol := 0
 				for _, r := range results {
@@ -308,8 +358,8 @@ func checkMain(a []string) {
 	for reason, n := range agg.outOfReach {
 		inconclusive = append(inconclusive, fmt.Sprintf("%d paths out of reach: %s", n, reason))
 	}
-	if !stop && len(results) < len(reqs) {
-		inconclusive = append(inconclusive, fmt.Sprintf("only %d of %d instances completed", len(results), len(reqs)))
+	if !stop && len(results) < total {
+		inconclusive = append(inconclusive, fmt.Sprintf("only %d of %d instances completed", len(results), total))
 	}
 	for h, cs := range mustCover {
 		for _, c := range cs {
